@@ -1040,6 +1040,29 @@ fn case_iter(seed: u64, idx: usize, suite: &str, cache: &TableCache, out: &mut S
             match toks {
                 Err(_) => out.push_str("nextp 1\nexpect panic\n"),
                 Ok(v) => {
+                    // the accessors of a delivered match agree with each other
+                    let mut acc_bad: Option<String> = None;
+                    for me in &v {
+                        let sp = me.span();
+                        let ok = sp.start == me.start() && sp.end == me.end() && me.range() == (me.start()..me.end())
+                            && sp.range() == me.range() && me.len() == me.end() - me.start() && sp.len() == me.len()
+                            && me.is_empty() == (me.len() == 0) && sp.is_empty() == me.is_empty()
+                            && me.start_position().line() == me.start_position().line && me.start_position().column() == me.start_position().column
+                            && format!("{}", sp) == format!("{}..{}", me.start(), me.end())
+                            && scnr::Span::from(me.start()..me.end()) == sp;
+                        let m2 = scnr::Match::new(me.token_type(), sp);
+                        let ok2 = m2.start() == me.start() && m2.end() == me.end() && m2.span() == sp && m2.range() == me.range()
+                            && m2.len() == me.len() && m2.is_empty() == me.is_empty() && m2.token_type() == me.token_type();
+                        if !(ok && ok2) && acc_bad.is_none() {
+                            acc_bad = Some(format!("{:?}", me));
+                        }
+                    }
+                    match acc_bad {
+                        None => out.push_str("oracle ok\nexpect oracle\n"),
+                        Some(b) => {
+                            let _ = writeln!(out, "oracle FAIL the accessors (span, range, len, is_empty, start/end, positions) of the delivered match {} disagree\nexpect oracle", b.replace('\n', " "));
+                        }
+                    }
                     for me in &v {
                         let _ = writeln!(out, "nextp 1\nexpect tokp {} {} {} {} {} {} {}", me.token_type(), me.start(), me.end(),
                             me.start_position().line, me.start_position().column, me.end_position().line, me.end_position().column);
@@ -3207,6 +3230,30 @@ fn case_c16(seed: u64, idx: usize, cache: &TableCache, out: &mut String, st: &mu
         cfggen::to_modes(&spec)
     };
     let _ = writeln!(out, "case {}\nexpect case {}\n# {}", idx, idx, describe(&spec).replace('\n', "\\n"));
+    // the accessors of the configuration types report what the configuration was built from
+    if !unsorted {
+        let mut acc_ok = modes.len() == spec.len();
+        for (m, ms) in modes.iter().zip(spec.iter()) {
+            acc_ok &= m.name() == ms.name;
+        }
+        for ms in spec.iter() {
+            for ps in &ms.patterns {
+                let p = scnr::Pattern::new(ps.pattern.clone(), ps.tid);
+                let p = match &ps.lookahead {
+                    Some((pos, la)) => p.with_lookahead(scnr::Lookahead::new(*pos, la.clone())),
+                    None => p,
+                };
+                let s_ref: &str = p.as_ref();
+                acc_ok &= p.pattern() == ps.pattern && p.terminal_id() == ps.tid && s_ref == ps.pattern
+                    && p.lookahead().map(|l| (l.is_positive(), l.pattern().to_string())) == ps.lookahead.clone();
+            }
+        }
+        if acc_ok {
+            out.push_str("oracle ok\nexpect oracle\n");
+        } else {
+            out.push_str("oracle FAIL an accessor of ScannerMode / Pattern / Lookahead (name, pattern, terminal_id, lookahead, is_positive, as_ref) does not report the value the configuration was built from\nexpect oracle\n");
+        }
+    }
     if renumbered && modes != cfggen::to_modes(&spec) {
         out.push_str("oracle FAIL modes whose patterns were renumbered with set_token_type differ from the modes built with these token types directly\nexpect oracle\n");
     }
